@@ -5,7 +5,7 @@
     contains no governance registration of a client under the own name.  Sends are the SendPacket calls made by the
     EVM hook (user transactions [ASend] and sends nested in module->contract callbacks). *)
 From Teleport Require Import Base.Bytes Base.Outcome Base.AList Model.Packet Model.PacketKeys
-     Proofs.Packet Proofs.PacketC01 Proofs.PacketC02 Proofs.PacketC04 Proofs.PacketKeys Proofs.PacketExamples.
+     Proofs.Packet Proofs.PacketC01 Proofs.PacketC02 Proofs.PacketC04 Proofs.PacketTx Proofs.PacketCb Proofs.PacketKeys Proofs.PacketExamples.
 Local Open Scope N_scope.
 
 (** One successful SendPacket, exactly: the packet is from this chain and carries the CURRENT counter (never 0); the
@@ -62,10 +62,88 @@ Theorem C04_failed_send_noop : forall P s env cb,
 Proof. intros P s env cb. exact (rejected_unchanged P s (env, ASend cb)). Qed.
 Print Assumptions C04_failed_send_noop.
 
-Theorem C04_failed_callback_noop : forall P s e cb,
-  is_ok (call_packet P s e cb) = false -> forall s', call_packet P s e cb <> Ok s'.
-Proof. intros P s e cb H s' E. rewrite E in H. discriminate. Qed.
+(** A module->contract callback that does not persist — the call reverts, a send of its PacketSent logs is refused,
+    another hook fails, the return data does not unpack, or the destination contract reports a non-zero result code —
+    leaves NOTHING behind: after the accepted receive the store differs from the old one at the receipt key and the
+    acknowledgement key only (no commitment, no counter), the packet contract's counters are the old ones and the
+    ghost log grew by the ack-written event alone (no setSequence, no sent, no onRecvPacket effect). *)
+Theorem C04_failed_callback_noop : forall P env s m cb s',
+  exec P env s (ARecv m cb) = Ok s' ->
+  let p := fst (decode P (rm_packet m)) in
+  p_dst p = st_name s ->
+  cb_persists P (set_kv (rkey P (triple_of p)) receipt_value s) p cb = None ->
+  (exists h, log (st_app s') = log (st_app s) ++ [EvAckWritten (triple_of p) h]) /\
+  cseq (st_app s') = cseq (st_app s) /\ st_clients s' = st_clients s /\ st_relayers s' = st_relayers s /\
+  (forall k, k <> rkey P (triple_of p) -> k <> akey P (triple_of p) -> sget k s' = sget k s).
+Proof. exact failed_callback_noop. Qed.
 Print Assumptions C04_failed_callback_noop.
+
+(** ... and that is the case whenever the call fails, its return data does not unpack, the result code is not 0, or
+    one of the sends it emitted is refused by SendPacket. *)
+Theorem C04_callback_not_persisting : forall P s1 p cb,
+  cb_fail cb = true \/ cb_ret cb = None \/ (exists c r m, cb_ret cb = Some (c, r, m) /\ c <> 0) \/
+  (forall s2, hook_sends P (add_log (EvOnRecv p) s1) (cb_sends cb) <> Ok s2) ->
+  cb_persists P s1 p cb = None.
+Proof. exact cb_persists_none. Qed.
+Print Assumptions C04_callback_not_persisting.
+Print Assumptions C04_failed_callback_noop.
+
+(** ONE transaction with SEVERAL sends (a contract calling Endpoint.crossChainCall more than once: the receipt carries
+    one PacketSent log per send, evm_hooks.go hands them to SendPacket in order).  All or nothing: if the transaction
+    is accepted, EVERY send of it — in order — got its two ghost events (setSequence on the packet contract, sent),
+    the commitment keys of its sends are pairwise different, each was free before and holds sha256(abi_pack p)
+    afterwards, and no key other than these commitments and the counters of the destinations changed; otherwise the
+    whole transaction leaves the state equal. *)
+Theorem C04_tx_sends_all_or_nothing : forall P, real_keys P -> forall env s cb,
+  inv4 P s ->
+  match exec P env s (ASend cb) with
+  | Ok s' =>
+      cb_fail cb = false /\ inv4 P s' /\
+      log (st_app s') = log (st_app s) ++ send_events (cb_sends cb) /\
+      NoDup (map (fun pk => ckey P (triple_of (fst pk))) (cb_sends cb)) /\
+      (forall p ok, In (p, ok) (cb_sends cb) ->
+         p_src p = st_name s /\ sget (ckey P (triple_of p)) s = None /\
+         exists bz, abi_pack P p = Some bz /\ sget (ckey P (triple_of p)) s' = Some (sha256 P bz)) /\
+      (forall k, (forall p ok, In (p, ok) (cb_sends cb) ->
+                    k <> ckey P (triple_of p) /\ k <> nextseq_key P (st_name s) (p_dst p)) ->
+         sget k s' = sget k s) /\
+      st_name s' = st_name s /\ st_clients s' = st_clients s /\ st_relayers s' = st_relayers s
+  | _ => step P s (env, ASend cb) = (s, false)
+  end.
+Proof. intros P K. exact (tx_sends_all_or_nothing P (real_keys_ok P K)). Qed.
+Print Assumptions C04_tx_sends_all_or_nothing.
+
+(** A transaction containing — at ANY position — a send to a destination without client is rejected as a whole
+    (from any state). *)
+Theorem C04_tx_unknown_dst_rejected : forall P env s cb p ok,
+  In (p, ok) (cb_sends cb) -> aget (p_dst p) (st_clients s) = None ->
+  step P s (env, ASend cb) = (s, false).
+Proof. exact tx_unknown_dst_rejected. Qed.
+Print Assumptions C04_tx_unknown_dst_rejected.
+
+(** A transaction with two sends to one destination carrying the same sequence — what the packet contract emits for
+    two crossChainCalls to one destination, because it learns the new counter only after the transaction — is
+    rejected as a whole: no sequence is ever used twice, not even inside one transaction. *)
+Theorem C04_tx_repeated_seq_rejected : forall P, real_keys P -> forall env s cb i j p1 ok1 p2 ok2,
+  inv4 P s -> (i < j)%nat ->
+  nth_error (cb_sends cb) i = Some (p1, ok1) -> nth_error (cb_sends cb) j = Some (p2, ok2) ->
+  p_dst p1 = p_dst p2 -> p_seq p1 = p_seq p2 ->
+  step P s (env, ASend cb) = (s, false).
+Proof. intros P K. exact (tx_repeated_seq_rejected P (real_keys_ok P K)). Qed.
+Print Assumptions C04_tx_repeated_seq_rejected.
+
+(** The commitment is the hash of the EMITTED bytes whenever the packet contract's encoding is the canonical one
+    (re-packing the decoded packet gives the emitted bytes back — compared on every send by the correspondence run,
+    monitor 24). *)
+Theorem C04_commitment_of_emitted_bytes : forall P, real_keys P -> forall s bz p ok s',
+  inv4 P s -> decode P bz = (p, false) -> abi_pack P p = Some bz ->
+  send_packet P s p ok = Ok s' -> sget (ckey P (triple_of p)) s' = Some (sha256 P bz).
+Proof.
+  intros P K s bz p ok s' I _ A H.
+  destruct (send_step_exact P (real_keys_ok P K) _ _ _ _ I H) as (_ & _ & _ & _ & _ & _ & _ & (bz' & A' & C) & _).
+  congruence.
+Qed.
+Print Assumptions C04_commitment_of_emitted_bytes.
 
 (** Non-vacuity: chain A (client for B) satisfies the invariant; three sends to B carry 1,2,3; a send with a wrong
     sequence and a send to an unknown destination are rejected and change nothing. *)
@@ -79,5 +157,9 @@ Example C04_nonvacuous :
   let s := run exP exA ops in
   sent_seqs chB (log (st_app s)) = [1; 2; 3] /\ next_seq exP s chA chB = Ok 4 /\ cseq_view s chB = 4 /\
   length (st_store s) = 4%nat /\
-  step exP s (5, ASend (mkCb false [(snd_pkt chB 9, true)] None)) = (s, false).
+  step exP s (5, ASend (mkCb false [(snd_pkt chB 9, true)] None)) = (s, false) /\
+  (* two sends with the same sequence in one transaction, a valid send followed by an unknown destination *)
+  step exP s (6, ASend (mkCb false [(snd_pkt chB 4, true); (snd_pkt chB 4, true)] None)) = (s, false) /\
+  step exP s (7, ASend (mkCb false [(snd_pkt chB 4, true); (snd_pkt (B "chain-x") 1, true)] None)) = (s, false) /\
+  snd (step exP s (8, ASend (mkCb false [(snd_pkt chB 4, true); (snd_pkt chB 5, true)] None))) = true.
 Proof. split; [exact exA_inv4|]. vm_compute. repeat split; reflexivity. Qed.
